@@ -55,11 +55,12 @@ def word(v, n):
     return list((v % (1 << (8 * n))).to_bytes(n, "little"))
 
 
-def statement(tree, dst, use_kernel=False, scope=None):
+def statement(tree, dst, use_kernel=False, scope=None, alias_dst=False):
     """dst: ("var", fmt) | ("local", fmt) | ("reg", kind) | ("hash", fmt).  Leaves may also be ("hash", fmt): a
     hash-map variable (its value is looked up with a helper call).  scope: None, or the name of a temporary
     ("tmp", "stmp", "wtmp") inside whose `with` block the statement is placed (the temporary then occupies a
-    register, usually r0).  Returns dict(built, ast, leaves, dst, n, inputs=[(offset, size, signed)] in leaf order)
+    register, usually r0).  alias_dst: a register destination is the register of the LAST register operand of the
+    tree (`r3 = 10 - r3`) instead of a register of its own.  Returns dict(built, ast, leaves, dst, n, inputs=[(offset, size, signed)] in leaf order)
     or raises NotGenerated."""
     from ebpfcat.xdp import XDP, XDPExitCode
     from ebpfcat.arraymap import ArrayMap
@@ -137,8 +138,11 @@ def statement(tree, dst, use_kernel=False, scope=None):
             self.lout = e
             self.out = self.lout
         else:
-            getattr(self, dst[1])[DST_REG] = e
-            self.out = self.r[DST_REG]
+            dreg = DST_REG
+            if alias_dst and regno:
+                dreg = regno[max(regno)]
+            getattr(self, dst[1])[dreg] = e
+            self.out = self.r[dreg]
     ns["program"] = program
     cls = type("Stmt", (XDP,), ns)
     try:
